@@ -75,3 +75,101 @@ Fixpoint hfresh (next : nat) (p : list hop) : list heop :=
 (* the defect class of the unrepaired code: the history contains a StartHunt on a frame view *)
 Definition known_C10_hunt6 (p : list hop) : bool :=
   existsb (fun o => match o with HStart _ => true | HStop _ => false end) p.
+
+(* ---------------------------------------------------------------- *)
+(* handlers/arp_spoofer/spoof.go: huntList map[string]packet.Addr keyed by string(addr.MAC) (a copy),
+   the value is the Addr as passed; spoofLoop(addr) keeps its own addr.  Every 6 s (and once at start)
+   the loop looks its own MAC up (h.huntList[string(addr.MAC)]): found -> AnnounceTo(value.MAC, router IP);
+   not found -> RequestRaw(addr.MAC, router, router) and the loop ends.  ProcessPacket answers an ARP
+   request for the router address from a MAC that is a key of the hunt list. *)
+
+Record h4state := { h4_list : list (bytes * rv); h4_loops : list rv }.
+
+Definition h4_has (k : bytes) (st : h4state) : bool := existsb (fun e => beqb (fst e) k) (h4_list st).
+Definition h4_val (k : bytes) (st : h4state) : option rv :=
+  option_map snd (find (fun e => beqb (fst e) k) (h4_list st)).
+
+Open Scope string_scope.
+Definition item_announce (dst : bytes) : string := "A(" ++ hex_of_bytes dst ++ ")".
+Definition item_restore (dst : bytes) : string := "Q(" ++ hex_of_bytes dst ++ ")".
+Definition item_reply (dst : bytes) : string := "Y(" ++ hex_of_bytes dst ++ ")".
+Close Scope string_scope.
+
+(* StartHunt(frame.SrcAddr) on an IPv4 frame; the new loop's first iteration announces at once *)
+Definition h4_start (cp : bool) (s : store) (buf : nat) (frame : bytes) (st : h4state) : h4state * list string :=
+  let mac := sub frame 6 6 in
+  if h4_has mac st then (st, []) else
+  let v := if cp then Owned mac else Ref buf 6 6 in
+  ({| h4_list := h4_list st ++ [(mac, v)]; h4_loops := h4_loops st ++ [v] |}, [item_announce (deref s v)]).
+
+Definition h4_stop (mac : bytes) (st : h4state) : h4state :=
+  {| h4_list := remove_first (fun e => beqb (fst e) mac) (h4_list st); h4_loops := h4_loops st |}.
+
+(* one ticker period: every loop iterates once *)
+Definition h4_tick1 (s : store) (st : h4state) (acc : list rv * list string) (v : rv) : list rv * list string :=
+  match h4_val (deref s v) st with
+  | Some tv => (fst acc ++ [v], snd acc ++ [item_announce (deref s tv)])
+  | None => (fst acc, snd acc ++ [item_restore (deref s v)])
+  end.
+Definition h4_tick (s : store) (st : h4state) : h4state * list string :=
+  let r := fold_left (h4_tick1 s st) (h4_loops st) ([], []) in
+  ({| h4_list := h4_list st; h4_loops := fst r |}, snd r).
+
+(* an ARP request (sender hardware address at 22..27, target address at 38..41) seen by ProcessPacket *)
+Definition h4_request (router_ip : bytes) (frame : bytes) (st : h4state) : list string :=
+  if h4_has (sub frame 22 6) st && beqb (sub frame 38 4) router_ip then [item_reply (sub frame 22 6)] else [].
+
+Inductive h4op : Type :=
+| A4Start (frame : bytes)
+| A4Stop (mac : bytes)
+| A4Tick
+| A4Request (frame : bytes).
+
+Inductive h4eop : Type :=
+| AEStart (buf : nat) (frame : bytes)
+| AEScribble (buf : nat) (c : bufc)
+| AEStop (mac : bytes)
+| AETick
+| AERequest (buf : nat) (frame : bytes).
+
+Record h4world := { aw_store : store; aw_state : h4state; aw_out : list (list string) }.
+
+Definition h4estep (cp : bool) (rip : bytes) (w : h4world) (e : h4eop) : h4world :=
+  match e with
+  | AEStart buf frame =>
+      let s := sset (aw_store w) buf (bwrite frame (sget (aw_store w) buf)) in
+      let r := h4_start cp s buf frame (aw_state w) in
+      {| aw_store := s; aw_state := fst r; aw_out := aw_out w ++ [snd r] |}
+  | AEScribble buf c => {| aw_store := sset (aw_store w) buf c; aw_state := aw_state w; aw_out := aw_out w |}
+  | AEStop mac => {| aw_store := aw_store w; aw_state := h4_stop mac (aw_state w); aw_out := aw_out w ++ [[]] |}
+  | AETick =>
+      let r := h4_tick (aw_store w) (aw_state w) in
+      {| aw_store := aw_store w; aw_state := fst r; aw_out := aw_out w ++ [snd r] |}
+  | AERequest buf frame =>
+      let s := sset (aw_store w) buf (bwrite frame (sget (aw_store w) buf)) in
+      {| aw_store := s; aw_state := aw_state w; aw_out := aw_out w ++ [h4_request rip frame (aw_state w)] |}
+  end.
+
+Definition h4run (cp : bool) (rip : bytes) (h : list h4eop) : h4world :=
+  fold_left (h4estep cp rip) h {| aw_store := []; aw_state := {| h4_list := []; h4_loops := [] |}; aw_out := [] |}.
+Definition h4transcript (cp : bool) (rip : bytes) (h : list h4eop) : list (list string) := aw_out (h4run cp rip h).
+
+Fixpoint h4shared (scr : nat -> bufc) (i : nat) (p : list h4op) : list h4eop :=
+  match p with
+  | [] => []
+  | A4Start f :: r => AEStart 0 f :: AEScribble 0 (scr i) :: h4shared scr (S i) r
+  | A4Stop m :: r => AEStop m :: h4shared scr i r
+  | A4Tick :: r => AETick :: h4shared scr i r
+  | A4Request f :: r => AERequest 0 f :: AEScribble 0 (scr i) :: h4shared scr (S i) r
+  end.
+Fixpoint h4fresh (next : nat) (p : list h4op) : list h4eop :=
+  match p with
+  | [] => []
+  | A4Start f :: r => AEStart next f :: h4fresh (S next) r
+  | A4Stop m :: r => AEStop m :: h4fresh next r
+  | A4Tick :: r => AETick :: h4fresh next r
+  | A4Request f :: r => AERequest next f :: h4fresh (S next) r
+  end.
+
+(* transcription of arp_spoofer StartHunt: repaired by /repo c1ee67c (was: the Addr stored as passed) *)
+Definition hunt4_copies : bool := true.
